@@ -10,6 +10,7 @@ import (
 	"runtime"
 	"sort"
 	"sync"
+	"sync/atomic"
 	"testing"
 	"time"
 
@@ -61,6 +62,20 @@ func model(initial int) porcupine.Model {
 		DescribeOperation: func(i, o any) string { return fmt.Sprintf("%+v -> %v", i, o) },
 	}
 }
+
+// someCtx returns a live context or (one call in four) an already-cancelled one: admission must not depend on it.
+func someCtx(k int) context.Context {
+	if k%4 == 3 {
+		return deadCtx
+	}
+	return context.Background()
+}
+
+var deadCtx = func() context.Context {
+	c, cancel := context.WithCancel(context.Background())
+	cancel()
+	return c
+}()
 
 func max1(v int) int {
 	if v < 1 {
@@ -188,7 +203,7 @@ func m1Limiter(idx int64, r *rand.Rand) {
 					var l core.Listener
 					ok := h.Do(g, in{Op: "acq"}, func() any {
 						var ok bool
-						l, ok = dl.Acquire(context.Background())
+						l, ok = dl.Acquire(someCtx(s.out + s.spin))
 						return ok && l != nil
 					}).(bool)
 					if ok {
@@ -360,8 +375,9 @@ func m2(idx int64, r *rand.Rand) {
 		if err != nil {
 			panic(err)
 		}
+		var n atomic.Int64
 		acquire = func() (func(int), bool) {
-			l, ok := dl.Acquire(context.Background())
+			l, ok := dl.Acquire(someCtx(int(n.Add(1))))
 			if !ok || l == nil {
 				return nil, false
 			}
